@@ -4,6 +4,7 @@ Monitors: icontract snapshot/ensure pair on `transform` of every shipped middlew
 (fingerprint of the input unchanged, no shared mutable object between input and result) and a
 fingerprint monitor around write_string (library and format unchanged, two writes identical).
 """
+import json
 from ..core import Violation, rng_for, srepr, tier_pick
 from ..gen import grammar, garbage
 from ..monitors import contracts
@@ -127,6 +128,9 @@ def rand_stack(r, pre=None):
         name = r.choice(CLASSES)
         kw = r.choice(OPTS.get(name, [dict()]))
         out.append([name, kw])
+    if r.random() < .2:
+        # the same middleware (one instance, see check) applied again: its second input already carries what it left behind
+        out = ([out[0], out[0]] if n < 3 else [out[0], out[1], out[0]])
     return out
 
 
@@ -206,6 +210,7 @@ def check(case, ctx):
     # ---- the stack, every step under the icontract snapshot/ensure pair
     from ..monitors.fingerprint import mutable_ids
     cur = lib
+    instances = {}
     changing = False
     lib_fp_before = fp(lib)
     steps_done = 0
@@ -217,7 +222,8 @@ def check(case, ctx):
             break
         state = state2
         try:
-            mw = make(spec)
+            ikey = json.dumps(spec, sort_keys=True, default=repr)
+            mw = instances.get(ikey) or instances.setdefault(ikey, make(spec))     # a repeated element of the stack is the same object
             cur = mw.transform(cur)
             ctx.ran()
         except contracts.PostBroken as ex:
